@@ -4,12 +4,12 @@
 cd "$(dirname "$(readlink -f "$0")")/.."
 SEEDS=${SEEDS:-1}
 export MUT_DIR=${MUT_DIR:-$(mktemp -d /tmp/repo_mut.XXXXXX)}   # private scratch clone: concurrent runs must not share one
-out=seeded/RESULTS.md
+out=${OUT:-seeded/RESULTS.md}      # OUT=<file> PATTERN='C*-r7-*' restricts the run to one round and leaves RESULTS.md alone
 echo "# Seeded changes vs quick checks (tools/run_seeded.sh, seeds: $SEEDS, $(date -u +%F))" > $out
 echo "" >> $out
 echo "| change | property | result per seed ($SEEDS) |" >> $out
 echo "|---|---|---|" >> $out
-for d in seeded/C*-*; do
+for d in seeded/${PATTERN:-C*-*}; do
   id=$(basename $d); p=${id%%-*}
   row=""
   for s in $SEEDS; do
